@@ -553,6 +553,22 @@ func (t *trzszTransfer) getNewTimeout() <-chan time.Time {
 	return nil
 }
 
+// checkDataSize rejects a data length announced by the peer that no legitimate sender can produce:
+// a chunk is at most the negotiated buffer size, doubled by escaping.
+func (t *trzszTransfer) checkDataSize(size int64) error {
+	maxSize := t.transferConfig.MaxBufSize
+	if maxSize < 10240 { // the initial buffer size
+		maxSize = 10240
+	}
+	if maxSize > 1024*1024*1024 { // the largest buffer size that can be configured
+		maxSize = 1024 * 1024 * 1024
+	}
+	if size < 0 || size > 2*maxSize {
+		return simpleTrzszError("Invalid data size: %d", size)
+	}
+	return nil
+}
+
 func (t *trzszTransfer) recvData() ([]byte, error) {
 	timeout := t.getNewTimeout()
 	if !t.transferConfig.Binary {
@@ -560,6 +576,9 @@ func (t *trzszTransfer) recvData() ([]byte, error) {
 	}
 	size, err := t.recvInteger("DATA", false, timeout)
 	if err != nil {
+		return nil, err
+	}
+	if err := t.checkDataSize(size); err != nil {
 		return nil, err
 	}
 	data, err := t.buffer.readBinary(int(size), timeout)
